@@ -47,6 +47,30 @@ fn family<C: CellType>() -> Vec<Expr<C>> {
     out
 }
 
+/// monomials that share one variable support ({x, y} resp. {x}) with every combination of boundary
+/// coefficients: what the half-modulus normalisation pairs up (x*x == x mod 2)
+fn family_support<C: CellType>() -> Vec<Expr<C>> {
+    let x = Expr::<C>::var(0);
+    let y = Expr::<C>::var(1);
+    let xy = [x.mul(&y), x.mul(&x).mul(&y), x.mul(&y).mul(&y), x.mul(&x).mul(&y).mul(&y)];
+    let xs = [x.clone(), x.mul(&x), x.mul(&x).mul(&x)];
+    let cs = coefs::<C>();
+    let mut out = Vec::new();
+    for &a in &cs {
+        for &b in &cs {
+            for &c in &cs {
+                out.push(xy[0].mul(Expr::val(a)).add(xy[1].mul(Expr::val(b))).add(xy[2].mul(Expr::val(c))));
+                out.push(xs[0].mul(Expr::val(a)).add(xs[1].mul(Expr::val(b))).add(xs[2].mul(Expr::val(c))));
+                out.push(xy[0].mul(Expr::val(a)).add(xs[1].mul(Expr::val(b))).add(xy[2].mul(Expr::val(c))).add(Expr::val(b)));
+                for &d in &cs[..4] {
+                    out.push(xy[0].mul(Expr::val(a)).add(xy[1].mul(Expr::val(b))).add(xy[2].mul(Expr::val(c))).add(xy[3].mul(Expr::val(d))));
+                }
+            }
+        }
+    }
+    out
+}
+
 fn ev<C: CellType>(e: &Expr<C>, a: C, b: C) -> C {
     e.evaluate(|v| if v == 0 { a } else if v == 1 { b } else { C::ZERO })
 }
@@ -71,7 +95,8 @@ impl Tally {
 }
 
 fn unary<C: CellType>(t: &mut [Tally; 6], w: &str) {
-    let fam = family::<C>();
+    let mut fam = family::<C>();
+    fam.extend(family_support::<C>());
     let vals = cells::<C>();
     for e in &fam {
         let neg = e.neg();
